@@ -797,13 +797,19 @@ fn main() {
     let (mut n_abort, mut n_hang, mut n_null, mut n_ok, mut n_builtin) = (0u64, 0u64, 0u64, 0u64, 0u64);
     let mut kinds: BTreeMap<String, u64> = BTreeMap::new();
     let mut samples = 0;
+    // a case that ran into the 20 s watchdog is run ONCE more, alone at the head of a fresh worker and with 120 s, before it is
+    // called a hang: on a heavily loaded machine one thorough run reported `context-creation-hung` for a case that takes
+    // milliseconds (round 3; the same lesson as C10's and C12's other watchdogs)
+    let mut retry_of: Option<usize> = None;
+    let mut n_retry = 0u64;
     while from < total {
         let (mut child, rx) = spawn_worker(from);
         let mut cur: Option<usize> = None;
         let mut pending: Option<String> = None;
         let mut finished = false;
         loop {
-            match rx.recv_timeout(Duration::from_secs(20)) {
+            let secs = if retry_of.is_some() && (cur == retry_of || cur.is_none()) { 120 } else { 20 };
+            match rx.recv_timeout(Duration::from_secs(secs)) {
                 Ok(Some(l)) => {
                     if let Some(r) = l.strip_prefix("@begin ") {
                         cur = Some(r.parse().unwrap());
@@ -857,6 +863,12 @@ fn main() {
                     let _ = child.kill();
                     let _ = child.wait();
                     let i = cur.unwrap_or(from);
+                    if retry_of != Some(i) {
+                        retry_of = Some(i);
+                        n_retry += 1;
+                        from = i;
+                        break;
+                    }
                     let lhs = pending.take().unwrap_or_else(|| format!("sysl crash {}", i));
                     n_hang += 1;
                     out.rec(&format!("{} => hang", lhs));
@@ -872,6 +884,7 @@ fn main() {
     out.stat("new2.null", n_null);
     out.stat("new2.abort", n_abort);
     out.stat("new2.hang", n_hang);
+    out.stat("new2.watchdog_retries", n_retry);
     out.stat("new2.builtin_fallback", n_builtin);
     for (k, v) in kinds {
         out.stat(&format!("new2.user_kind.{}", k), v);
